@@ -8,6 +8,7 @@ mod csvfuzz;
 mod l1;
 mod oracle;
 mod ordersweep;
+mod race;
 mod record;
 mod replay;
 mod replay_csv;
@@ -32,6 +33,7 @@ fn main() {
         "c01sweep" => c01::main(rest),
         "session" => session::main(rest),
         "ordersweep" => ordersweep::main(rest),
+        "race" => race::main(rest),
         "csvfuzz" => csvfuzz::main(rest),
         "universe" => universe::main(rest),
         "version" => println!("{:?} {:?}", precis_core::UNICODE_VERSION, precis_profiles::UNICODE_VERSION),
